@@ -7,7 +7,7 @@ from harness import core
 from harness.core import cN, cZ, cnat, clist, copt, cbool
 
 HEADER = ('From Coq Require Import List ZArith NArith.\n'
-          'From PC Require Import Base.Outcome Base.Py Base.PySlice Model.Strips Model.Triangulate Check.C11.\n'
+          'From PC Require Import Base.Outcome Base.Py Base.PySlice Base.NpProg Model.Strips Model.Triangulate Check.C11.\n'
           'Import ListNotations.\n')
 CASE_TYPE = 'C11.case'
 KINDS = ['tristrips', 'trifans', 'polylist', 'polygons']
@@ -263,12 +263,12 @@ def boundary_cases(rng):
     return out
 
 
-def exhaustive_cases(rng):
-    """every length vector of at most three runs with lengths 0..9, for each of the four kinds
-    (stride and inputs vary along the enumeration)"""
+def exhaustive_cases(rng, max_runs=4):
+    """every length vector of at most four runs with lengths 0..9, for each of the four kinds
+    (stride, inputs and source data vary along the enumeration)"""
     i = 0
     for kind in KINDS:
-        for nruns in (1, 2, 3):
+        for nruns in range(1, max_runs + 1):
             for v in itertools.product(range(10), repeat=nruns):
                 nind = 1 + (i % 4)
                 i += 1
@@ -290,10 +290,16 @@ def c_tris(ts):
 
 
 def proj_of(case):
-    v = [o for s, o, _ in case['inputs'] if s == 'VERTEX'][:1]
-    nn = [o for s, o, _ in case['inputs'] if s == 'NORMAL'][:1]
-    t = [o for s, o, _ in case['inputs'] if s == 'TEXCOORD']
+    """(array, offset) of the columns a Polygon exposes: 0 = indices, 1 = normal_indices, 2 = texcoord_indices[*]"""
+    v = [(0, o) for s, o, _ in case['inputs'] if s == 'VERTEX'][:1]
+    nn = [(1, o) for s, o, _ in case['inputs'] if s == 'NORMAL'][:1]
+    t = [(2, o) for s, o, _ in case['inputs'] if s == 'TEXCOORD']
     return v + nn + t
+
+
+def c_bound(res):
+    b = res.get('bound_index')
+    return copt(None if b is None else c_tris(b))
 
 
 def c_case(case, res):
@@ -304,14 +310,15 @@ def c_case(case, res):
                                             clist([cnat(x) for x in res['slice']]))
     ps = clist([clist([cN(x) for x in p]) for p in case['ps']])
     if kind in ('tristrips', 'trifans'):
-        return '(CExpand %s %s %s %s %s)' % ('KStrips' if kind == 'tristrips' else 'KFans', cnat(case['nind']), ps,
-                                             cnat(res['load_code']), c_tris(res['index'] or []))
+        return '(CExpand %s %s %s %s %s %s)' % ('KStrips' if kind == 'tristrips' else 'KFans', cnat(case['nind']), ps,
+                                                cnat(res['load_code']), c_tris(res['index'] or []), c_bound(res))
     pp = res.get('pp')
-    return '(CPoly %s %s %s %s %s %s %s %s %s %s %s)' % (
-        cbool(kind == 'polygons'), cnat(case['nind']), clist([cnat(o) for o in proj_of(case)]),
+    return '(CPoly %s %s %s %s %s %s %s %s %s %s %s %s)' % (
+        cbool(kind == 'polygons'), cnat(case['nind']),
+        clist(['(%s, %s)' % (cnat(a), cnat(o)) for a, o in proj_of(case)]),
         clist([cnat(c) for c in case.get('vcounts', [])]), ps, cnat(res['load_code']),
         clist([cnat(c) for c in (res['vcounts'] or [])]), cnat(res['tri_code']), c_tris(res['tri_index'] or []),
-        cbool(pp is not None), clist([c_tris(g) for g in (pp or [])]))
+        cbool(pp is not None), clist([c_tris(g) for g in (pp or [])]), c_bound(res))
 
 
 # ---------------------------------------------------------------- running
@@ -477,7 +484,7 @@ def run(ctx):
                 'pairwise distinct labels in 85 % of the cases; non-trivial = at least one triangle expected; '
                 'distinct = different (kind, stride, inputs, length vector); plus a fixed list of boundary shapes '
                 '(empty / one / two in first, middle, last position, three spellings of an empty <p>) and '
-                'runtime slices list(range(n))[a:b:s]; thorough adds every length vector of <= 3 runs with lengths 0..9 for every kind',
+                'runtime slices list(range(n))[a:b:s]; thorough adds every length vector of <= 4 runs with lengths 0..9 for every kind',
         'samples': [{'input': dict(c, data={'pos_mode': c.get('data', {}).get('pos_mode')}), 'observed': {k: v for k, v in r.items() if k != 'fails'}}
                     for c, r in list(zip(cases, results))[ncorpus + len(bnd):ncorpus + len(bnd) + 3]],
         'distribution': {'by_kind': by_kind, 'by_stride': by_stride, 'runs_per_primitive': nruns,
@@ -492,7 +499,7 @@ def run(ctx):
 
     def search(mm):
         extra = [m['input'] for m in mm if m['input'].get('kind') != 'slice']
-        extra += list(exhaustive_cases(rng))
+        extra += list(exhaustive_cases(rng, 3))
         extra += [gen_case(rng) for _ in range(4000)]
         res = run_impl_cases(extra)
         return first_failures(extra, res)
